@@ -31,6 +31,11 @@ TRUSTED = [
 
 SHAPES = [(True, True), (True, False), (False, True), (False, False)]
 
+# Experiment switch (never set by the registered command): the working tree's cencoding.c carries the C equivalent
+# of the proposed repair of _assemble_objects (notes/C15.md).  The check then ties the binary to the model of the
+# REPAIRED loop (Impl/CAssembleFixed.v) and expects the property on every cut; the .pyx staleness obligation is skipped.
+FX = os.environ.get("VERIF_C15_REPAIRED") == "1"
+
 
 # ---------------------------------------------------------------------------------------------
 # subprocess worker
@@ -225,7 +230,9 @@ def run(ctx):
     ctx.coq_file(os.path.join(C.COQ, "props", "C15.v"))
     bad = C.hygiene()
     ctx.obligation("hygiene: no Admitted/Axiom/Parameter/... in coq/", not bad, "; ".join(bad))
-    stale = stale_assemble()
+    stale = [] if FX else stale_assemble()
+    if FX:
+        ctx.notes.append("VERIF_C15_REPAIRED=1: model of the proposed repair, staleness obligation skipped")
     ctx.obligation("cencoding.pyx _assemble_objects is the source embedded in cencoding.c (DESIGN 4.5)", not stale,
                    "source and compiled code differ; the property is shown for the compiled code only: %r" % (stale[:5],))
     C.use_shadow()          # the parent only uses the thrift classes (file writer); all reads/calls happen in workers
@@ -340,7 +347,7 @@ def cmp_direct(model, impl, n):
 def stage_direct(ctx, pq, w):
     rng = ctx.rng
     # ---- A1: single calls, arbitrary state --------------------------------------------------
-    n1 = 400 if ctx.quick() else 6000
+    n1 = 1000 if ctx.quick() else 20000
     tasks, cmds, cases = [], [], []
     for _ in range(n1):
         n = rng.randint(1, 4)
@@ -365,7 +372,7 @@ def stage_direct(ctx, pq, w):
         task = {"op": "seq", "mode": "one", "n": n, "guard": g, "arr": arr, "null": null, "max_defi": max_defi,
                 "prev_i": prev_i, "pages": [{"rep": rep, "def": defi, "vals": vals}]}
         m_arr = [None if r is None else [[None if e is None else [e] for e in r]] for r in arr]
-        cmds.append(("assemble_page", null, max_defi, m_arr, prev_i, [[[r, d] for r, d in zip(rep, de)], vals]))
+        cmds.append(("assemble_page_fx" if FX else "assemble_page", null, max_defi, m_arr, prev_i, [[[r, d] for r, d in zip(rep, de)], vals]))
         tasks.append(task)
         cases.append({"stage": "direct-one", "n": n, "null": null, "max_defi": max_defi, "arr": arr, "prev_i": prev_i,
                       "rep": rep, "def": de, "defi_none": defi is None, "vals": vals})
@@ -380,7 +387,8 @@ def stage_direct(ctx, pq, w):
             continue
         if m[0] == "ok":
             want = [m_rows_back(m[1][0]), m[1][1]]
-            got = [res["arr"], res["ret"]] if (res.get("exc") is None and not res.get("oob_written")) else \
+            # the repaired model returns what read_col stores (1 + the returned int, which may be -1)
+            got = [res["arr"], res["ret"] + (1 if FX else 0)] if (res.get("exc") is None and not res.get("oob_written")) else \
                   ["exc/oob", res.get("exc"), res.get("oob_written")]
         else:
             want, got = cmp_direct(m, res, case["n"])
@@ -402,7 +410,7 @@ def stage_direct(ctx, pq, w):
             for cuts in [[]] + [[a] for a in rb] + [[a, b] for a in rb for b in rb if a < b]:
                 seq_cases.append((ro, eo, rows, cuts, 2))
     # random longer ones
-    for _ in range(150 if ctx.quick() else 3000):
+    for _ in range(400 if ctx.quick() else 10000):
         ro, eo = rng.choice(SHAPES)
         rows = gen_rows(rng, ro, eo, rng.randint(1, 6), 5, "int64")
         rep, de, vals = NF.shred(rows, ro, eo)
@@ -419,7 +427,7 @@ def stage_direct(ctx, pq, w):
         vt = VTable()
         mp = [m_page(r, d, vv, vt) for (r, d, vv, _) in pages]
         if v == 1:
-            cmds.append(("run_v1", ro, eo, len(rows), mp))
+            cmds.append(("run_v1_fx" if FX else "run_v1", ro, eo, len(rows), mp))
         else:
             cmds.append(("run_v2", False, ro, eo, len(rows), [[p, nr] for p, (_, _, _, nr) in zip(mp, pages)]))
         cmds.append(("shred", ro, eo, m_rows(rows, vt)))
@@ -439,7 +447,9 @@ def stage_direct(ctx, pq, w):
                            [[list(map(int, e)) for e in sh[0]], [int(x) for x in sh[1]]],
                            [[[r, d] for r, d in zip(rep, de)], [vt.idx(x) for x in vals]])
         classes = classify_v1_pages([(p[0], p[1]) for p in pages], max_def) if v == 1 else []
-        if v == 1:
+        if FX:
+            classes = []            # the repaired loop has no bad cuts (C15_pages_full_repaired)
+        elif v == 1:
             # the harness classifier of known-bad splits is the complement of the theorem's guard
             ctx.correspondence("Coq pages_aligned/good_split (hypotheses of C15_pages_partial) ~ harness split classifier", case,
                                guard, [True, not classes])
@@ -509,6 +519,8 @@ def expected_cells(col, rows):
 def file_case_classes(case):
     """known-bad regions touched by a file case (computed from the page structure, not from the model)"""
     classes = set()
+    if FX:
+        return []
     for rg in case["rgs"]:
         for c in case["cols"]:
             for leaf in NF.leaf_columns(c):
@@ -534,7 +546,7 @@ def model_file(pq, case, written):
             n = len(rg["rows"][leaf["col"]])
             mp = [m_page(r, d, v, vt) for (r, d, v) in leaf["pages"]]
             if leaf["version"] == 1:
-                cmds.append(("run_v1", leaf["row_opt"], leaf["elem_opt"], n, mp))
+                cmds.append(("run_v1_fx" if FX else "run_v1", leaf["row_opt"], leaf["elem_opt"], n, mp))
             else:
                 # read_data_page_v2's branch for this leaf's pages (model of the if/elif chain): record assembly?
                 br = pq.call("v2_branch", False, 1, 8 if leaf["dictionary"] else 0)
@@ -724,7 +736,7 @@ def stage_files(ctx, pq, w):
                 nfile += 1
                 check_file_case(ctx, pq, w, case, os.path.join(ctx.scratch, "f%d.parquet" % nfile), conf_budget)
     # ---- random files ------------------------------------------------------------------------
-    nrand = 160 if ctx.quick() else 5000
+    nrand = 400 if ctx.quick() else 15000
     for _ in range(nrand):
         ncols = rng.choice([1, 1, 2])
         cols = []
@@ -743,13 +755,15 @@ def stage_files(ctx, pq, w):
         # mostly splits the theorem covers; one file in five may cut anywhere (known-bad regions included)
         anywhere = rng.random() < 0.2
         for _g in range(rng.choice([1, 1, 2, 3])):
-            nrows = rng.randint(1, 7)
+            big = rng.random() < 0.08          # now and then long columns / long lists (level runs >= 8, several bit-packed groups)
+            nrows = rng.randint(8, 40) if big else rng.randint(1, 7)
+            maxlen = 12 if big else 5
             rg = {"rows": {}, "layout": {}}
             for col in cols:
                 if col["kind"] == "list":
-                    rows = gen_rows(rng, col["row_opt"], col["elem_opt"], nrows, 5, col["ptype"])
+                    rows = gen_rows(rng, col["row_opt"], col["elem_opt"], nrows, maxlen, col["ptype"])
                 else:
-                    rows = gen_map_rows(rng, col["row_opt"], col["elem_opt"], nrows, 5, col["key_ptype"], col["ptype"])
+                    rows = gen_map_rows(rng, col["row_opt"], col["elem_opt"], nrows, maxlen, col["key_ptype"], col["ptype"])
                 rg["rows"][col["name"]] = rows
                 for leaf in NF.leaf_columns(col):
                     lrows = NF.leaf_rows(col, leaf, rows)
